@@ -75,7 +75,9 @@ def attr_case(draw):
         if i > 0 and draw(st.integers(0, 5)) == 0:
             steps.append({"how": how, "value": None})  # documented: None = "not set"; both attributes then read None
         else:
-            steps.append({"how": how, "value": [float(x * mag) for x in v]})
+            # (one setter step in six runs with warnings turned into errors, as under `python -W error`: a library warning
+            #  then aborts the assignment, and the two attributes must still describe one state)
+            steps.append({"how": how, "value": [float(x * mag) for x in v], "strict_warnings": i > 0 and draw(st.integers(0, 5)) == 0})
     return {"kind": "attr", "source": spec, "steps": steps}
 
 
@@ -283,6 +285,31 @@ def _run_attr(case, ctx):
             if not r.ok:
                 return [Violation({"sub": "ctor_raised", "cls": cls, **exc_sig(r.exc)}, repr(r.exc)[:200])]
             obj = r.value
+        elif stp.get("strict_warnings"):
+            import warnings  # pylint: disable=import-outside-toplevel
+
+            ctx.label("attr_how:strict_warnings")
+            raised = None
+            with warnings.catch_warnings():
+                warnings.simplefilter("error")
+                try:
+                    setattr(obj, "polarization" if how == "set_pol" else "magnetization", v)
+                except Warning as w:
+                    raised = w
+                except Exception as ex:  # pylint: disable=broad-except
+                    return [Violation({"sub": "setter_raised", "cls": cls, **exc_sig(ex)}, repr(ex)[:200])]
+            if raised is not None:
+                # the assignment was aborted by a warning: whichever state the object is in, it must be one state
+                ctx.label("assignment_aborted_by_warning")
+                pol_, mag_ = obj.polarization, obj.magnetization
+                ok_ = (pol_ is None and mag_ is None) or (pol_ is not None and mag_ is not None and
+                                                          np.allclose(np.asarray(pol_), np.asarray(mag_) * mu0, rtol=1e-9, atol=0))
+                if not ok_:
+                    out.append(Violation({"sub": "attr_inconsistent_after_warning", "cls": cls, "how": how},
+                                         f"{cls}: {'polarization' if how == 'set_pol' else 'magnetization'} = {v.tolist()} was aborted by {type(raised).__name__} "
+                                         f"({str(raised)[:80]}); afterwards polarization={None if pol_ is None else np.asarray(pol_).tolist()}, "
+                                         f"magnetization={None if mag_ is None else np.asarray(mag_).tolist()}"))
+                continue
         else:
             r = build.call(setattr, obj, "polarization" if how == "set_pol" else "magnetization", v)
             if not r.ok:
